@@ -66,6 +66,16 @@ class SrpClientModel(StubObj):
         it.ctx.assume(z3.Length(t) == 64)
         return ops.mk_bytes(t)
 
+    def m_get_session_key(self, it):
+        from .stubs_builtin import F_os2ip_be
+
+        self._need(it)
+        t = F_srp_K(self.a, self.pin, self.salt, self.B)
+        it.ctx.assume(z3.Length(t) == 64)
+        r = F_os2ip_be(t)
+        it.ctx.assume(r >= 0)
+        return ops.mk_int(r)
+
     def m_verify_servers_proof_bytes(self, it, m):
         from .stubs_builtin import F_os2ip_be
 
@@ -81,8 +91,25 @@ class SrpClientModel(StubObj):
         return r
 
 
+F_minbytes = z3.Function("minbytes", I, ISEQ)  # minimal big-endian bytes of a non-negative int (no leading zero)
+
+
 def install(env):
     from aiohomekit.crypto.srp import SrpClient
+    from aiohomekit.crypto import srp as _srp
+    from .stubs_builtin import F_os2ip_be
+
+    def to_byte_array(it, num):
+        """model of srp.to_byte_array for callers outside the SRP class (verified under C02): the minimal
+        big-endian encoding; it drops leading zero bytes, so it is NOT the inverse of from_bytes on padded data"""
+        n = ops.int_term(num)
+        t = F_minbytes(n)
+        it.ctx.assume(F_os2ip_be(t) == n)
+        from .values import SBytes
+
+        return SBytes(t, True)
+
+    env.stub(_srp.to_byte_array, to_byte_array)
 
     env.srp_symbols = {
         "srpA": lambda it, a: ops.mk_bytes(F_srp_A(ops.int_term(a))),
